@@ -9,6 +9,7 @@ import (
 
 	"github.com/cnotch/ipchub/av/format/hls"
 	"github.com/cnotch/ipchub/media"
+	"github.com/cnotch/scheduler"
 	"github.com/cnotch/xlog"
 
 	. "vh/lib"
@@ -40,12 +41,23 @@ const Tick = time.Minute
 // Quiet silences the library's logger once per process
 var Quiet sync.Once
 
+// the idle-close tasks posted to the scheduler belong to the history that posted them
+func cancelIdleTasks() {
+	for _, j := range scheduler.Jobs() {
+		if _, _, ok := media.VerifIdleTask(j.Schelule()); ok {
+			j.Cancel()
+		}
+	}
+}
+
 // History replays (variant ops) and returns (answer_1 ... answer_n end) where end is the per-stream
 // vector (live attached_total closed_calls): whether the stream is StreamOK, how many attach operations
 // on it succeeded, and how many of those consumers have had Close called.
 func History(c Val) Val {
 	Quiet.Do(func() { xlog.ReplaceGlobal(xlog.New(xlog.NewNopCore())) })
 	media.VerifResetRegistry()
+	cancelIdleTasks()
+	defer cancelIdleTasks()
 	var streams []*media.Stream
 	idOf := func(s *media.Stream) Val {
 		for i, x := range streams {
@@ -185,6 +197,13 @@ func History(c Val) Val {
 				ok = err == nil
 			}
 			outs = append(outs, L(I(5), Bo(ok)))
+		case 15: // the scheduler runs every pending idle-close task of the registry once (Regist posts them)
+			for _, j := range scheduler.Jobs() {
+				if _, _, ok := media.VerifIdleTask(j.Schelule()); ok {
+					j.Job().Run()
+				}
+			}
+			outs = append(outs, L(I(0)))
 		default: // 9: one run of the idle task with a period of At(2) ticks
 			closed := false
 			if valid && media.VerifStatus(streams[i]) == media.StreamOK {
